@@ -2,7 +2,7 @@
 From Boltons Require Import Lib.Prelude Lib.C14_Text Spec.C14_Spec Model.C14_Model Gen.C14_Gen
   Check.C14_Check Proofs.C14_Table Proofs.C14_Sh Proofs.C14_Cmd Proofs.C14_Int Proofs.C14_Int2 Proofs.C14_Int3
   Proofs.C14_Gzip Gen.C14_Src Proofs.C14_SrcEq Proofs.C14_SrcEqCmd
-  Proofs.C14_Read.
+  Proofs.C14_Read Proofs.C14_SrcEqSh.
 Open Scope N_scope.
 
 (* (T) obligation over the table regenerated from the source on every run:
@@ -35,6 +35,14 @@ Print Assumptions C14_sh_any_table.
 Theorem C14_cmd : forall dd args, no_nul args -> ms_split dd (args2cmd args) = args.
 Proof. exact args2cmd_splits_back. Qed.
 Print Assumptions C14_cmd.
+
+(* (T) the definition regenerated from the CURRENT source text of args2sh (the
+   empty-argument case, the all-safe test against the regenerated class, the
+   quote splice with the constants of the source, the final join) is the model
+   C14_sh is about *)
+Theorem C14_source_args2sh : forall safe args sep, src_args2sh safe args sep = args2sh safe args.
+Proof. exact src_args2sh_eq. Qed.
+Print Assumptions C14_source_args2sh.
 
 (* (T) the definition regenerated from the CURRENT source text of args2cmd
    (Gen/C14_Src.v: the result / bs_buf / needquote state machine, result as the list of
